@@ -43,6 +43,193 @@ func urlDecision(c *Ctx, p *packages.Package, fd *ast.FuncDecl) {
 		decls[info.Defs[f.Name]] = f
 	}
 	d := &denum{info: info, pkg: p.Types, inits: inits, limit: 20000, decls: decls}
+	// A hand-written scan of the input — for i := 0; i < len(s); i++ { … s[i] … } or for i, c := range s — that leaves
+	// the loop (break / return) at the first character of a stop set and goes on (continue / end of body) at every other
+	// character is summarised by what it establishes: after the loop without a stop, the input contains no stop
+	// character; at a stop, i is the index of the FIRST stop character and s[i] is that character.
+	scanStops := map[string]bool{}
+	var scanIdx types.Object
+	scanMarker := func(name string) *ast.CallExpr {
+		return &ast.CallExpr{Fun: ast.NewIdent(name), Args: []ast.Expr{ast.NewIdent("s")}}
+	}
+	isMarker := func(e ast.Expr, name string) bool {
+		call, ok := ast.Unparen(e).(*ast.CallExpr)
+		if !ok {
+			return false
+		}
+		id, ok := call.Fun.(*ast.Ident)
+		return ok && id.Name == name
+	}
+	d.loopHook = func(dd *denum, loop ast.Stmt, in []dstate) ([]dstate, bool) {
+		var idx, elem types.Object
+		var body *ast.BlockStmt
+		switch l := loop.(type) {
+		case *ast.RangeStmt:
+			xid, ok := ast.Unparen(l.X).(*ast.Ident)
+			if !ok || info.ObjectOf(xid) != param || l.Tok != token.DEFINE {
+				return nil, false
+			}
+			if k, ok := l.Key.(*ast.Ident); ok && k.Name != "_" {
+				idx = info.Defs[k]
+			}
+			if v, ok := l.Value.(*ast.Ident); ok && v.Name != "_" {
+				elem = info.Defs[v]
+			}
+			body = l.Body
+		case *ast.ForStmt:
+			// for i := 0; i < len(s); i++
+			as, ok := l.Init.(*ast.AssignStmt)
+			if !ok || len(as.Lhs) != 1 || len(as.Rhs) != 1 || as.Tok != token.DEFINE {
+				return nil, false
+			}
+			if k, isC := constInt(info, as.Rhs[0]); !isC || k != 0 {
+				return nil, false
+			}
+			iid, ok := as.Lhs[0].(*ast.Ident)
+			if !ok {
+				return nil, false
+			}
+			idx = info.Defs[iid]
+			be, ok := l.Cond.(*ast.BinaryExpr)
+			if !ok || be.Op != token.LSS || types.ExprString(be.X) != iid.Name {
+				return nil, false
+			}
+			lc, ok := ast.Unparen(be.Y).(*ast.CallExpr)
+			if !ok || types.ExprString(lc.Fun) != "len" || len(lc.Args) != 1 {
+				return nil, false
+			}
+			if aid, ok := ast.Unparen(lc.Args[0]).(*ast.Ident); !ok || info.ObjectOf(aid) != param {
+				return nil, false
+			}
+			inc, ok := l.Post.(*ast.IncDecStmt)
+			if !ok || inc.Tok != token.INC || types.ExprString(inc.X) != iid.Name {
+				return nil, false
+			}
+			body = l.Body
+		default:
+			return nil, false
+		}
+		// the index is not assigned in the body
+		assignsIdx := false
+		ast.Inspect(body, func(n ast.Node) bool {
+			switch x := n.(type) {
+			case *ast.AssignStmt:
+				for _, lh := range x.Lhs {
+					if id, ok := lh.(*ast.Ident); ok && idx != nil && info.ObjectOf(id) == idx {
+						assignsIdx = true
+					}
+				}
+			case *ast.IncDecStmt:
+				if id, ok := x.X.(*ast.Ident); ok && idx != nil && info.ObjectOf(id) == idx {
+					assignsIdx = true
+				}
+			}
+			return true
+		})
+		if assignsIdx {
+			return nil, false
+		}
+		isCur := func(e ast.Expr) bool {
+			e = ast.Unparen(e)
+			if id, ok := e.(*ast.Ident); ok {
+				return elem != nil && info.ObjectOf(id) == elem
+			}
+			if ix, ok := e.(*ast.IndexExpr); ok && idx != nil {
+				xid, ok1 := ast.Unparen(ix.X).(*ast.Ident)
+				iid, ok2 := ast.Unparen(ix.Index).(*ast.Ident)
+				return ok1 && ok2 && info.ObjectOf(xid) == param && info.ObjectOf(iid) == idx
+			}
+			return false
+		}
+		// which character a condition says the current one is / is not
+		curIs := func(pc pathCond) (string, bool, bool) {
+			be, ok := ast.Unparen(pc.Expr).(*ast.BinaryExpr)
+			if !ok || (be.Op != token.EQL && be.Op != token.NEQ) {
+				return "", false, false
+			}
+			for _, pr := range [][2]ast.Expr{{be.X, be.Y}, {be.Y, be.X}} {
+				if !isCur(pr[0]) {
+					continue
+				}
+				if k, isC := constInt(info, pr[1]); isC {
+					return string(rune(k)), pc.Val == (be.Op == token.EQL), true
+				}
+			}
+			return "", false, false
+		}
+		var out []dstate
+		for _, s0 := range in {
+			sub := &denum{info: info, pkg: p.Types, inits: inits, limit: 5000, decls: decls, loopBody: true}
+			sub.finish(sub.run(body.List, []dstate{s0}))
+			if sub.undecided != "" {
+				return nil, false
+			}
+			stops := map[string]bool{}
+			for _, pth := range sub.paths {
+				goesOn := pth.Ret == nil && (pth.Exit == "" || pth.Exit == "continue")
+				if goesOn {
+					continue
+				}
+				for _, pc := range pth.Conds[len(s0.conds):] {
+					if ch, is, ok := curIs(pc); ok && is {
+						stops[ch] = true
+					}
+				}
+			}
+			if len(stops) == 0 {
+				return nil, false
+			}
+			for _, pth := range sub.paths {
+				goesOn := pth.Ret == nil && (pth.Exit == "" || pth.Exit == "continue")
+				own := pth.Conds[len(s0.conds):]
+				if goesOn {
+					// going on to the next character is only right for a character outside the stop set
+					for ch := range stops {
+						excluded := false
+						for _, pc := range own {
+							if c2, is, ok := curIs(pc); ok && (c2 == ch && !is || c2 != ch && is) {
+								excluded = true // tested not to be ch, or tested to be another character
+							}
+						}
+						if !excluded {
+							return nil, false
+						}
+					}
+					continue
+				}
+				// a stop: exactly one stop character was taken as the current one
+				at := ""
+				for _, pc := range own {
+					if ch, is, ok := curIs(pc); ok && is {
+						at = ch
+					}
+				}
+				if at == "" {
+					return nil, false
+				}
+				env := map[types.Object]ast.Expr{}
+				for k, v := range pth.Env {
+					env[k] = v
+				}
+				if idx != nil {
+					env[idx] = scanMarker("·firstIndexOf" + at)
+				}
+				conds := append(append([]pathCond{}, pth.Conds...), pathCond{Expr: scanMarker("·stoppedAt" + at), Val: true, At: len(pth.Trace)})
+				if pth.Ret != nil {
+					dd.paths = append(dd.paths, dpath{Conds: conds, Ret: pth.Ret, Env: env, Trace: pth.Trace})
+					continue
+				}
+				out = append(out, dstate{conds: conds, env: env, trace: pth.Trace})
+			}
+			for ch := range stops {
+				scanStops[ch] = true
+			}
+			// no stop character anywhere in the input
+			out = append(out, s0.with(scanMarker("·noStopChar"), true))
+		}
+		scanIdx = idx
+		return out, true
+	}
 	fall := d.run(fd.Body.List, []dstate{{env: map[types.Object]ast.Expr{}}})
 	if d.undecided != "" {
 		c.undec("C04.R1", key+"|shape", c.pos(fd.Pos()), "templ.URL contains "+d.undecided+"; its paths cannot be enumerated")
@@ -111,6 +298,9 @@ func urlDecision(c *Ctx, p *packages.Package, fd *ast.FuncDecl) {
 			return false
 		}
 		id, ok := ast.Unparen(sl.X).(*ast.Ident)
+		if ok && info.ObjectOf(id) == param && isMarker(d.deref(sl.High, env), "·firstIndexOf:") {
+			return true // the scan stopped at the first ':' (and, when '/' is a stop character too, no '/' precedes it)
+		}
 		return ok && info.ObjectOf(id) == param && isFirstColonIndex(sl.High, env)
 	}
 	type atom struct {
@@ -124,6 +314,28 @@ func urlDecision(c *Ctx, p *packages.Package, fd *ast.FuncDecl) {
 		un := atom{kind: "unknown", val: pc.Val, text: types.ExprString(e)}
 		if cutResult(e, env) == 2 {
 			return atom{kind: "colon", val: pc.Val, text: un.text}
+		}
+		// what a scan of the input established
+		switch {
+		case isMarker(e, "·noStopChar") && scanStops[":"]:
+			return atom{kind: "colon", val: false, text: "no ':' in the input (scan ended)"}
+		case isMarker(e, "·stoppedAt/") && scanStops[":"]:
+			return atom{kind: "slash", val: true, text: "a '/' before any ':' (scan stopped at '/')"}
+		case isMarker(e, "·stoppedAt:"):
+			if scanStops["/"] {
+				return atom{kind: "slash", val: false, text: "no '/' before the first ':' (scan stopped at ':')"}
+			}
+			return atom{kind: "colon", val: true, text: "scan stopped at the first ':'"}
+		}
+		if be, ok := e.(*ast.BinaryExpr); ok && scanIdx != nil {
+			// the tests of the current character inside the scan: subsumed by the stop marker
+			for _, side := range []ast.Expr{be.X, be.Y} {
+				if ix, ok := ast.Unparen(side).(*ast.IndexExpr); ok {
+					if iid, ok := ast.Unparen(ix.Index).(*ast.Ident); ok && info.ObjectOf(iid) == scanIdx {
+						return atom{kind: "scan", val: pc.Val, text: un.text}
+					}
+				}
+			}
 		}
 		switch x := e.(type) {
 		case *ast.BinaryExpr:
